@@ -1,3 +1,4 @@
+import GstGen.CowTable
 import GstVerif.Cow.Model
 import GstVerif.Memo.Model
 import GstProofs.Props.C13
@@ -221,6 +222,23 @@ theorem step_refines (s : St) (op : Cow.Op) (hw : Wf s) :
           simp only [List.getD_eq_getElem?_getD]
           rw [List.getElem?_set_ne (Ne.symm e)]
     · exact ⟨by simpa [step, hh] using hw, by simp [step, stepSpec, hh, hlen]⟩
+  | upd h u =>
+    by_cases hh : h < s.hnd.length
+    · obtain ⟨w, l, vh, vo⟩ := setBuf_spec s h (applyUpd u) hw hh
+      refine ⟨by simpa [step, hh] using w, ?_⟩
+      apply abs_ext
+      · simp [step, stepSpec, hlen, hh, l]
+      · intro k hk
+        simp only [step, hh, if_true, l] at hk
+        simp only [stepSpec, hlen, hh, if_true, step]
+        by_cases e : k = h
+        · subst e
+          rw [vh, ← abs_getD s k hh]
+          simp [hlen, hh]
+        · rw [vo k hk e, ← abs_getD s k hk]
+          simp only [List.getD_eq_getElem?_getD]
+          rw [List.getElem?_set_ne (Ne.symm e)]
+    · exact ⟨by simpa [step, hh] using hw, by simp [step, stepSpec, hh, hlen]⟩
   | push h v =>
     by_cases hh : h < s.hnd.length
     · obtain ⟨w, l, vh, vo⟩ := setBuf_spec s h (fun b => b ++ [v]) hw hh
@@ -316,6 +334,37 @@ is what plain value semantics gives. -/
 theorem cow_refines (ops : List Cow.Op) : Cow.abs (run ops) = runSpec ops := by
   have := (run_refines_from ops Cow.init (by intro h hh; simp [Cow.init] at hh)).2
   simpa [run, runSpec, Cow.abs, Cow.init] using this
+
+/-! ### the premise of `cow_refines`, decided on the table regenerated from the header at every run
+
+`runner/cow2lean.py` re-reads `include/Basic/VectorT.hpp` / `VectorNumT.hpp` of /repo and rewrites
+`GstGen/CowTable.lean`: one row per member function definition.  The model's mutators detach before
+they write (`Cow.step`); these theorems say that the *source* does: they are re-elaborated against
+what the headers contain today, for every member, not for the members a test happens to call. -/
+
+/-- every member that reaches the shared buffer through a non-const path calls `_detach()` before
+its first access (`_detach` itself is the exception: it is the copy) -/
+theorem vectorT_writers_detach :
+    ∀ m ∈ GstGen.cowMethods, m.writes = true → m.detaches = true ∨ m.name = "_detach" := by decide
+
+/-- no `const` member writes -/
+theorem vectorT_const_members_read_only :
+    ∀ m ∈ GstGen.cowMethods, m.isConst = true → m.writes = false := by decide
+
+/-- the only `const` members handing out mutable access to the shared buffer are the two recorded
+in known finding F73 (`getVector`, `getVectorPtr`): a new escape hatch breaks this theorem -/
+theorem vectorT_escapes_known :
+    (GstGen.cowMethods.filter (·.escapes)).map (·.name) = ["getVector", "getVectorPtr"] := by decide
+
+/-- the derived numeric vector never names the buffer in a mutator: it goes through the accessors
+of `VectorT`, which detach -/
+theorem vectorNumT_mutators_use_accessors :
+    ∀ m ∈ GstGen.cowMethods, m.cls = "VectorNumT" → m.isConst = false → m.writes = false := by decide
+
+/-- the table is not empty and holds the members the model is about -/
+theorem vectorT_table_covers_model :
+    ∀ n ∈ ["operator=", "operator[]", "setAt", "push_back", "resize", "swap", "fill", "clear", "assign"],
+      n ∈ GstGen.cowMethods.map (·.name) := by decide
 
 /-- witness: a writable reference taken on `v[0]` *before* `w = v` is copied, used after it,
 changes `w` as well — the escape hatch of every copy-on-write container (`T& operator[]`,
